@@ -87,7 +87,7 @@ CHECKS["C04"] = {
                        "cstruct.py:cstruct._make_array", "cstruct.py:cstruct._make_pointer",
                        "expression.py:Expression.evaluate"],
     "required_cells": ["align:True", "align:False", "alignclass:1", "alignclass:2", "alignclass:4", "alignclass:8",
-                       "alignclass:16"],
+                       "alignclass:16", "mixed-modes:aligned-offset", "mixed-modes:unaligned-offset"],
     "assumptions": ASSUME_COMMON,
 }
 
@@ -107,7 +107,7 @@ CHECKS["C06"] = {
                        "types/structure.py:StructureMetaType._calculate_size_and_offsets", "<compiled>"],
     "required_cells": ["straddle", "aligned", "feat:bits:signed", "feat:bits:enum", "feat:bits:wide",
                        "exh:uint8:<:compiled", "exh:uint8:>:interpreted", "exh:int8:>:compiled",
-                       "exh:int8:<:interpreted"],
+                       "exh:int8:<:interpreted", "char-units:compiled", "char-units:interpreted", "union-bit-fields"],
     "exhaustive": {"quick": False, "thorough": False},
     "assumptions": ASSUME_COMMON,
 }
@@ -195,8 +195,8 @@ CHECKS["C10"] = {
     "level": "exploration",
     "shards": {"quick": 16, "thorough": 32},
     "budget": {"quick": 50, "thorough": 400},
-    "rule": "every well-formed token sequence of the expression grammar with <= 5 tokens over 13 operands (decimal, "
-            "hex, octal, binary, suffixed literals, identifiers a/b/u, constant K, sizeof(uint32)), 10 binary and 2 "
+    "rule": "every well-formed token sequence of the expression grammar with <= 5 tokens over 14 operands (decimal, "
+            "hex, octal, binary, suffixed literals, identifiers a/b/u, constant K, sizeof(uint32), sizeof(unsigned short)), 10 binary and 2 "
             "unary operators and parentheses is enumerated completely (about 5*10^5 expressions, spaced and unspaced), "
             "each under one of three identifier bindings (one where the context shadows the constant); random "
             "expressions to depth 5/6 and literal form x suffix x value sweeps beyond; every evaluation is compared "
@@ -400,7 +400,8 @@ CHECKS["C14"] = {
                        "types/base.py:BaseArray.__default__", "types/base.py:MetaType.__default__",
                        "cstruct.py:cstruct.add_type", "types/packed.py:_struct"],
     "required_cells": ["op:default", "op:keyword", "op:mutate", "op:parse", "op:failparse", "op:endian", "op:load",
-                       "op:add_type", "two-cstructs-same-names"],
+                       "op:add_type", "two-cstructs-same-names", "load-histories", "load-histories:align",
+                       "load-histories:compiled"],
     "assumptions": ASSUME_COMMON,
 }
 
